@@ -295,6 +295,15 @@ func stratifiedCorpus(stmts []corpusStmt, per, maxLen int) []string {
 				k += " " + w
 			}
 		}
+		// … and the statement's last word when it is keyword-like (SYSTEM SYNC REPLICA t PULL vs … LIGHTWEIGHT; … FINAL; … SYNC)
+		all := strings.Fields(strings.ToUpper(s.Text))
+		if lw := strings.Trim(all[len(all)-1], "();,"); len(all) > 3 && lw != "" && token.Lookup(lw) != token.IDENT {
+			k += " … " + lw
+		} else if len(all) > 3 {
+			if lw2 := strings.Trim(all[len(all)-1], "();,"); len(lw2) >= 3 && len(lw2) <= 12 && strings.ToUpper(lw2) == strings.ToLower(lw2) == false && softKeywords()[lw2] {
+				k += " … " + lw2
+			}
+		}
 		if seen[k] < per {
 			seen[k]++
 			out = append(out, s.Text)
